@@ -15,18 +15,29 @@
 (*   ContextualCheckBlock).  span > 1: the block stands for the last block *)
 (*   of a chain of `span` blocks whose intermediate blocks exist as        *)
 (*   headers only (used to reach the 288-block "too far ahead" rule); such *)
-(*   a block can be stored but never linked/connected.                     *)
+(*   a block can be stored but never linked/connected - unless the span    *)
+(*   is in FullSpans: then all its blocks are real and delivered together, *)
+(*   and the chain is connected as a unit (reorgs of more than 32 blocks). *)
 (***************************************************************************)
 EXTENDS Integers, Sequences, FiniteSets, TLC, VF
-CONSTANTS MaxBlocks, MaxInv, Kinds, Spans, MinWork, Requested, KeepWindow
+CONSTANTS MaxBlocks, MaxInv, Kinds, Spans, MinWork, Requested, KeepWindow,
+          WorldFilter, \* "any" or the name of a scenario restriction (see WorldOK)
+          FullSpans    \* spans whose intermediate blocks are delivered too: a connectable chain of that many blocks (long reorgs)
 Ids == 0..MaxBlocks
+\* scenario restriction: which (parent, kind, span) block number i may have (TRUE everywhere in the generic configurations)
+WorldOK(i, p, k, sp) == WorldFilter = "any" \/ (WorldFilter = "longreorg" /\
+    \/ (i = 1 /\ p = 0 /\ k = "ok" /\ sp = 40)          \* the old tip: 40 blocks
+    \/ (i = 2 /\ p = 0 /\ k = "ok" /\ sp = 34)          \* common segment of the competing branches: more than one 32-block batch
+    \/ (i = 3 /\ p = 2 /\ k = "ok" /\ sp = 10)          \* valid branch, total 44
+    \/ (i = 4 /\ p = 2 /\ sp = 11))                     \* longer branch (45) whose last block may be invalid
 VARIABLES n, parent, kind, span,      \* the world
           hdr, data, failed, linked, seq, nextSeq, unlinked, cand, tip,   \* the node
-          ninv, lastAct, lastRes
+          ninv, minv,                 \* number of / blocks under a manual invalidation (invalidateblock)
+          lastAct, lastRes
 world == <<n, parent, kind, span>>
 node == <<hdr, data, failed, linked, seq, nextSeq, unlinked, cand, tip>>
-vars == <<world, node, ninv, lastAct, lastRes>>
-View0 == <<world, node, ninv>>
+vars == <<world, node, ninv, minv, lastAct, lastRes>>
+View0 == <<world, node, ninv, minv>>
 
 RECURSIVE HeightP(_, _, _)
 HeightP(P, SP, b) == IF b = 0 THEN 0 ELSE SP[b] + HeightP(P, SP, P[b])
@@ -50,7 +61,7 @@ PathTo(f, p) == Ord(Anc(p) \ Anc(f))
 Init == /\ n = 0 /\ parent = [b \in Ids |-> 0] /\ kind = [b \in Ids |-> "ok"] /\ span = [b \in Ids |-> 1]
         /\ hdr = {0} /\ data = {0} /\ failed = {} /\ linked = {0}
         /\ seq = [b \in Ids |-> IF b = 0 THEN 0 ELSE -1] /\ nextSeq = 1
-        /\ unlinked = <<>> /\ cand = {0} /\ tip = 0 /\ ninv = 0
+        /\ unlinked = <<>> /\ cand = {0} /\ tip = 0 /\ ninv = 0 /\ minv = {}
         /\ lastAct = <<"init">> /\ lastRes = <<"none">>
 
 \* FindMostWorkChain. E = [hdr, data, seq]: the index as seen by the activation code
@@ -95,12 +106,12 @@ LinkQueue(q, s) ==
                     [linked |-> s.linked \cup {b}, seq |-> sq2, nextSeq |-> s.nextSeq + 1,
                      cand |-> addc, unlinked |-> rest])
 
-Mine(p, k, sp) == /\ n < MaxBlocks /\ p \in 0..n
+Mine(p, k, sp) == /\ n < MaxBlocks /\ p \in 0..n /\ WorldOK(n + 1, p, k, sp)
                   /\ n' = n + 1
                   /\ parent' = [parent EXCEPT ![n + 1] = p]
                   /\ kind' = [kind EXCEPT ![n + 1] = k]
                   /\ span' = [span EXCEPT ![n + 1] = sp]
-                  /\ UNCHANGED <<node, ninv>>
+                  /\ UNCHANGED <<node, ninv, minv>>
                   /\ lastAct' = <<"mine", p, k, sp>> /\ lastRes' = <<"none">>
 
 \* AcceptBlockHeader outcome for a header b: "known", "known-failed", "no-prev", "bad-prev", "new"
@@ -111,7 +122,7 @@ HeaderCase(b) == IF b \in hdr THEN (IF b \in failed THEN "known-failed" ELSE "kn
 DeliverHeader(b) ==
   /\ b \in 1..n
   /\ hdr' = IF HeaderCase(b) = "new" THEN hdr \cup {b} ELSE hdr
-  /\ UNCHANGED <<world, data, failed, linked, seq, nextSeq, unlinked, cand, tip, ninv>>
+  /\ UNCHANGED <<world, data, failed, linked, seq, nextSeq, unlinked, cand, tip, ninv, minv>>
   /\ lastAct' = <<"header", b>>
   /\ lastRes' = IF HeaderCase(b) \in {"new", "known"} THEN <<"true">> ELSE <<"false">>
 
@@ -123,7 +134,7 @@ StoreAllowed(b) == /\ Work(b) >= Work(tip)
 \* ProcessNewBlock(block, force_processing = req). Result <<return value, new_block>>
 DeliverBlock(b, req) ==
   /\ b \in 1..n
-  /\ UNCHANGED <<world, ninv>>
+  /\ UNCHANGED <<world, ninv, minv>>
   /\ lastAct' = <<"block", b, req>>
   /\ LET hc == HeaderCase(b) IN
      IF hc \in {"known-failed", "no-prev", "bad-prev"}
@@ -143,7 +154,7 @@ DeliverBlock(b, req) ==
      ELSE LET h2 == hdr \cup {b}
               d2 == data \cup {b}
               s0 == [linked |-> linked, seq |-> seq, nextSeq |-> nextSeq, cand |-> cand, unlinked |-> unlinked]
-              s1 == IF span[b] > 1 THEN s0      \* intermediate blocks missing: nChainTx stays 0 for ever
+              s1 == IF span[b] > 1 /\ span[b] \notin FullSpans THEN s0      \* intermediate blocks missing: nChainTx stays 0 for ever
                     ELSE IF parent[b] \in linked THEN LinkQueue(<<b>>, s0)
                     ELSE [s0 EXCEPT !.unlinked = Append(unlinked, <<parent[b], b>>)]
               a == Activate([hdr |-> h2, data |-> d2, seq |-> s1.seq],
@@ -177,7 +188,7 @@ Invalidate(b) ==
          f3 == f2 \cup Desc(st1.last, hdr)
          a == Activate(E, [cand |-> c3, failed |-> f3, tip |-> st1.tip, ok |-> TRUE])
      IN /\ cand' = a.cand /\ failed' = a.failed /\ tip' = a.tip
-  /\ ninv' = ninv + 1
+  /\ ninv' = ninv + 1 /\ minv' = minv \cup {b}
   /\ UNCHANGED <<world, hdr, data, linked, seq, nextSeq, unlinked>>
   /\ lastAct' = <<"invalidate", b>> /\ lastRes' = <<"none">>
 
@@ -190,7 +201,7 @@ Reconsider(b) ==
          c2 == cand \cup {x \in clr : x \in data /\ x \in linked /\ Worse(tip, x, seq)}
          a == Activate(E, [cand |-> c2, failed |-> f2, tip |-> tip, ok |-> TRUE])
      IN /\ cand' = a.cand /\ failed' = a.failed /\ tip' = a.tip
-  /\ ninv' = ninv + 1
+  /\ ninv' = ninv + 1 /\ minv' = {x \in minv : ~(b \in Anc(x) \/ x \in Anc(b))}
   /\ UNCHANGED <<world, hdr, data, linked, seq, nextSeq, unlinked>>
   /\ lastAct' = <<"reconsider", b>> /\ lastRes' = <<"none">>
 
@@ -202,7 +213,8 @@ Spec == Init /\ [][Next]_vars
 ----
 \* ---- C08, as predicates over (world, observable node state) so that they can also be evaluated on states observed
 \* ---- in the implementation (module BlockTreeObs)
-EligibleIn(P, SP, H, D, F, b) == b \in H /\ SP[b] = 1 /\ \A x \in AncP(P, b) : x \in D /\ x \notin F /\ SP[x] = 1
+Whole(sp) == sp = 1 \/ sp \in FullSpans
+EligibleIn(P, SP, H, D, F, b) == b \in H /\ Whole(SP[b]) /\ \A x \in AncP(P, b) : x \in D /\ x \notin F /\ Whole(SP[x])
 TipIsMostWorkIn(P, SP, H, D, F, t) == \A b \in H : EligibleIn(P, SP, H, D, F, b) => HeightP(P, SP, b) <= HeightP(P, SP, t)
 NoFailedInChainIn(P, F, t) == AncP(P, t) \cap F = {}
 ChainHasDataIn(P, D, t) == AncP(P, t) \subseteq D
@@ -210,6 +222,12 @@ ChainHasDataIn(P, D, t) == AncP(P, t) \subseteq D
 FailedClosedIn(P, H, F) == \A b \in H : (b # 0 /\ P[b] \in F) => b \in F
 
 TipIsMostWork == TipIsMostWorkIn(parent, span, hdr, data, failed, tip)
+\* the same with validity taken from the world instead of the node's own failure marks: a valid block wrongly marked failed must
+\* not let the node settle on a chain with less work ("no block known to be invalid" = genuinely invalid or manually invalidated)
+GenuinelyOK(K, MI, P, b) == \A x \in AncP(P, b) : K[x] = "ok" /\ x \notin MI
+TipIsMostWorkTrueIn(P, SP, K, MI, H, D, t) ==
+  \A b \in H : (Whole(SP[b]) /\ GenuinelyOK(K, MI, P, b) /\ \A x \in AncP(P, b) : x \in D /\ Whole(SP[x])) => HeightP(P, SP, b) <= HeightP(P, SP, t)
+TipIsMostWorkTrue == TipIsMostWorkTrueIn(parent, span, kind, minv, hdr, data, tip)
 NoFailedInChain == NoFailedInChainIn(parent, failed, tip)
 ChainHasData == ChainHasDataIn(parent, data, tip)
 FailedClosed == FailedClosedIn(parent, hdr, failed)
